@@ -223,10 +223,11 @@ struct iauth_request *iauth_validate_request(const char routing[])
      * values; anything that does not fit names no request of ours.
      */
     l_id = strtol(routing, &sep, 16);
-    if (sep[0] != '_')
+    if (sep == routing || sep[0] != '_')
         return NULL;
-    ul_serial = strtoul(sep + 1, &sep, 16);
-    if (sep[0] != '\0')
+    routing = sep + 1;
+    ul_serial = strtoul(routing, &sep, 16);
+    if (sep == routing || sep[0] != '\0')
         return NULL;
     if (l_id < 0 || l_id > (long)UINT_MAX || ul_serial > UINT_MAX)
         return NULL;
